@@ -1,1 +1,233 @@
-(* placeholder, being written *)
+(* C09 — proxy plugins run in configured order with the documented chaining semantics; lifecycle
+   callbacks fire exactly once for every connection whose first request completed.
+   Statements only; proofs are in Net/PluginChainFacts.v.
+
+   All statements quantify over arbitrary plugin lists of any length whose hooks are arbitrary
+   functions of (everything logged on the connection so far, the argument) returning
+   Pass x | Drop | Reject response | Raise exception, over all requests and all histories. *)
+From PM Require Import Lib.Bytes Lib.PyStr Net.Auth Net.AuthFacts Net.PluginChain Net.PluginChainFacts.
+
+(* Every hook chain the handler runs (before_upstream_connection, handle_client_request — first and
+   later requests —, handle_client_data, handle_upstream_chunk, on_access_log: all are [chain] in
+   Net/PluginChain.v) is the left fold over the configured plugin list: each plugin receives what the
+   previous one returned and the log of everything before it; the first plugin that does not return a
+   value freezes the result. *)
+Theorem C09_chain_is_fold : forall (A : Type) hk (inj : A -> arg) call ps (x : A) l,
+  chain hk inj call ps x l = fold_left (chain_step hk inj call) ps (l, Done x).
+Proof. exact @chain_is_fold. Qed.
+Print Assumptions C09_chain_is_fold.
+
+(* The invocations a chain makes are one call per plugin of a PREFIX of the configured list, in
+   configured order; the whole list when every plugin returned a value. *)
+Theorem C09_chain_order : forall (A : Type) hk (inj : A -> arg) call ps (x : A) l,
+  exists n d, fst (chain hk inj call ps x l) = l ++ d /\ map event_pid d = map pid (firstn n ps)
+              /\ forallb (is_call_of hk) d = true
+              /\ (forall y, snd (chain hk inj call ps x l) = Done y -> n = length ps).
+Proof. exact @chain_calls_prefix. Qed.
+Print Assumptions C09_chain_order.
+
+(* Configured order: the HttpProxyBasePlugin bucket after flag.py / Plugins.load is the auth plugin
+   (when basic auth is given or a custom auth plugin is named) followed by the requested classes in
+   the order given, each class once (first occurrence); with pairwise distinct name()s the
+   instantiated chain is exactly that list. *)
+Theorem C09_load_order : forall abc defaults basic_auth auth is_default requested,
+  In PROXY_BASE abc -> k_base auth = PROXY_BASE -> (forall d, In d defaults -> k_base d <> PROXY_BASE) ->
+  bucket PROXY_BASE (initialize_plugins abc defaults basic_auth auth is_default requested) =
+  fold_left (fun ks k => if PROXY_BASE =? k_base k then add_klass k ks else ks) requested
+            (if truthy basic_auth || negb is_default then [auth] else []).
+Proof. exact load_bucket_general. Qed.
+Print Assumptions C09_load_order.
+
+Theorem C09_distinct_names_keep_order : forall ks,
+  NoDup (map (fun k => pname (k_plugin k)) ks) -> plugin_values (instantiate ks) = map k_plugin ks.
+Proof. exact instantiate_distinct. Qed.
+Print Assumptions C09_distinct_names_keep_order.
+
+(* Recorded limitation of "all plugin lists": plugins are keyed by name(); a later class with the
+   name of an earlier one replaces it AT THE EARLIER POSITION and the earlier plugin never runs. *)
+Theorem C09_name_collision : forall a c,
+  pname (k_plugin c) = pname (k_plugin a) -> plugin_values (instantiate [a; c]) = [k_plugin c].
+Proof. exact instantiate_collision. Qed.
+Print Assumptions C09_name_collision.
+
+(* A plugin returning None ends its chain: no later plugin of that chain is invoked ... *)
+Theorem C09_drop_ends_chain : forall (A : Type) hk (inj : A -> arg) call p1 p p2 (x : A) l l1 y,
+  chain hk inj call p1 x l = (l1, Done y) -> call p l1 y = Drop ->
+  chain hk inj call (p1 ++ p :: p2) x l = (l1 ++ [Call (pid p) hk (inj y)], Dropped y).
+Proof. exact @chain_drop_stops. Qed.
+Print Assumptions C09_drop_ends_chain.
+
+(* ... in before_upstream_connection it suppresses the upstream connection: no connect attempt, nothing
+   queued for upstream or client by the handler, self.upstream stays None (the
+   handle_client_request chain still runs, as the code has it) ... *)
+Theorem C09_drop_suppresses_connect : forall cf ps r c l l1 rx,
+  chain BUC ARequest before_upstream_connection ps r l = (l1, Dropped rx) ->
+  let res := on_request_complete cf ps r c l in
+  res = after_connect cf ps false rx l1
+  /\ connect_log (fst res) = connect_log l
+  /\ upstream_queue (fst res) = upstream_queue l
+  /\ client_queue (fst res) = client_queue l
+  /\ st_upstream (end_state (snd res)) = false.
+Proof. exact drop_before_connect. Qed.
+Print Assumptions C09_drop_suppresses_connect.
+
+(* ... in handle_client_request it suppresses the forwarding of that request: first request ... *)
+Theorem C09_drop_suppresses_first : forall cf ps connected r1 l2 l3 rx,
+  chain HCR ARequest handle_client_request ps r1 l2 = (l3, Dropped rx) ->
+  after_connect cf ps connected r1 l2 = (l3, Continue (mkState rx connected None)).
+Proof. exact drop_first_request. Qed.
+Print Assumptions C09_drop_suppresses_first.
+
+(* ... and later requests. *)
+Theorem C09_drop_suppresses_later : forall cf ps st pr l l1 rx,
+  chain HCR ARequest handle_client_request ps pr l = (l1, Dropped rx) ->
+  run_later cf ps st pr l = (l1, Continue (mkState (st_request st) true (Some rx)))
+  /\ upstream_queue l1 = upstream_queue l.
+Proof. exact drop_later_request. Qed.
+Print Assumptions C09_drop_suppresses_later.
+
+(* A plugin rejecting in before_upstream_connection: the log is the calls up to that plugin, then
+   exactly its response (if it chose one), then the teardown; no connect attempt, nothing queued for
+   upstream, and nothing that follows in the history has any effect before shutdown. *)
+Theorem C09_reject_exact : forall cf ps r c rest l l1 rx resp,
+  chain BUC ARequest before_upstream_connection ps r l = (l1, Rejected rx resp) ->
+  run_steps cf ps None false (SFirst r c :: rest) l = (handle_data_end (FReject resp) l1, Some (mkState rx false None))
+  /\ connect_log l1 = connect_log l /\ upstream_queue l1 = upstream_queue l /\ client_queue l1 = client_queue l.
+Proof. exact reject_before_connect. Qed.
+Print Assumptions C09_reject_exact.
+
+Theorem C09_reject_response : forall b l, b <> [] -> handle_data_end (FReject (Some b)) l = l ++ [QueueClient b; Teardown].
+Proof. exact handle_data_end_reject. Qed.
+Print Assumptions C09_reject_response.
+
+(* Rejecting in handle_client_request: same response and teardown, no request byte is queued for
+   upstream — but on the first request the upstream connection has already been opened (the code
+   connects between the two chains); on later requests the connection exists anyway. *)
+Theorem C09_reject_exact_first_hcr : forall cf ps connected r1 l2 l3 rx resp,
+  chain HCR ARequest handle_client_request ps r1 l2 = (l3, Rejected rx resp) ->
+  after_connect cf ps connected r1 l2 = (l3, Failed (mkState rx connected None) (FReject resp))
+  /\ upstream_queue l3 = upstream_queue l2 /\ client_queue l3 = client_queue l2.
+Proof. exact reject_first_request. Qed.
+Print Assumptions C09_reject_exact_first_hcr.
+
+Theorem C09_reject_exact_later : forall cf ps st pr l l1 rx resp,
+  chain HCR ARequest handle_client_request ps pr l = (l1, Rejected rx resp) ->
+  run_later cf ps st pr l = (l1, Failed (mkState (st_request st) true (Some rx)) (FReject resp))
+  /\ upstream_queue l1 = upstream_queue l /\ client_queue l1 = client_queue l.
+Proof. exact reject_later_request. Qed.
+Print Assumptions C09_reject_exact_later.
+
+(* Lifecycle, over every history (any steps, ended by anything): if the first request completed,
+   every plugin's on_upstream_connection_close runs exactly once in configured order, the
+   on_access_log chain runs exactly once (a prefix of the plugins, the default log line at most once
+   and only after all plugins were asked), the client socket is closed once; otherwise no callback
+   runs.  Premises: lifecycle hooks do not raise and keep the keys the default log line formats; the
+   executor calls shutdown() exactly once (C05/C10). *)
+Theorem C09_lifecycle_once : forall cf ps c0 steps,
+  lifecycle_total ps -> keeps_keys ps -> (forall t, ctx_ok t c0) ->
+  let l := run_conn cf ps c0 steps in
+  if existsb is_first steps then
+    filter (is_call_of OUCC) l = map (fun p => Call (pid p) OUCC AUnit) ps
+    /\ (exists n, map event_pid (filter (is_call_of OAL) l) = map pid (firstn n ps)
+                  /\ (length (filter is_access_log l) <= 1)%nat
+                  /\ (length (filter is_access_log l) = 1%nat -> n = length ps))
+    /\ length (filter is_client_close l) = 1%nat
+  else
+    l = [ClientClose].
+Proof. exact lifecycle_once. Qed.
+Print Assumptions C09_lifecycle_once.
+
+(* the exact tail of every such log *)
+Theorem C09_lifecycle_shape : forall cf ps c0 steps,
+  lifecycle_total ps -> keeps_keys ps -> (forall t, ctx_ok t c0) ->
+  existsb is_first steps = true ->
+  exists l0 st dOAL e,
+    run_steps cf ps None false steps [] = (l0, Some st)
+    /\ chain OAL ACtx on_access_log ps c0 l0 = (l0 ++ dOAL, e)
+    /\ run_conn cf ps c0 steps =
+         l0 ++ dOAL
+         ++ match e with Done c => [AccessLog c] | _ => [] end
+         ++ map (fun p => Call (pid p) OUCC AUnit) ps
+         ++ (if st_upstream st then [UpstreamClose] else [])
+         ++ [ClientClose].
+Proof. exact lifecycle_shape. Qed.
+Print Assumptions C09_lifecycle_shape.
+
+(* nothing before shutdown is a lifecycle callback *)
+Theorem C09_no_lifecycle_before_shutdown : forall cf ps st dr steps l,
+  delta_ok q_pre l (fst (run_steps cf ps st dr steps l)).
+Proof. exact run_steps_pre. Qed.
+Print Assumptions C09_no_lifecycle_before_shutdown.
+
+(* ------------------------------------------------------------------ non-vacuity and recorded examples *)
+Definition ex_cf : config := mkConfig (bs "proxy.py v0") [].
+Definition ex_req : request :=
+  mkRequest (bs "GET") (Some (bs "h.example")) (Some 80) (Some (bs "/")) HTTP_1_1
+            (headers_of_lines [bs "Host: h.example"]) None false.
+Definition ex_c0 : ctx := map (fun k => (k, @nil N)) (required_keys false).
+
+(* three plugins: the first marks the request, the second rewrites and later drops upstream data,
+   the third takes over the access log *)
+Definition ex_p1 : plugin :=
+  mkPlugin 1 (bs "P1") (fun _ r => Pass (set_headers r (add_header (bs "X-1") (bs "1") (rq_headers r))))
+           (fun _ _ _ => Some (None, None)) (fun _ r => Pass r) (fun _ b => Pass b) (fun _ b => Pass (b ++ bs "!")) (fun _ c => Pass c) (fun _ => None).
+Definition ex_p2 : plugin :=
+  mkPlugin 2 (bs "P2") (fun _ r => Pass r) (fun _ _ _ => Some (None, None))
+           (fun _ r => Pass (set_headers r (add_header (bs "X-2") (bs "2") (rq_headers r))))
+           (fun _ b => Pass b) (fun seen b => if (1 <? N.of_nat (length (filter (is_call_of HUC) seen))) then Drop else Pass b)
+           (fun _ c => Pass c) (fun _ => None).
+Definition ex_p3 : plugin :=
+  mkPlugin 3 (bs "P3") (fun _ r => Pass r) (fun _ _ _ => Some (None, None)) (fun _ r => Pass r)
+           (fun _ b => Pass b) (fun _ b => Pass b) (fun _ c => Drop) (fun _ => None).
+
+Example C09_nonvacuous_premises :
+  lifecycle_total [ex_p1; ex_p2; ex_p3] /\ keeps_keys [ex_p1; ex_p2; ex_p3] /\ (forall t, ctx_ok t ex_c0).
+Proof.
+  split; [|split].
+  - split.
+    + intros p seen c [<-|[<-|[<-|[]]]]; exact I.
+    + intros p seen [<-|[<-|[<-|[]]]]; reflexivity.
+  - intros t p seen a b [<-|[<-|[<-|[]]]] Ha H; cbn in H; inversion H; subst; try exact Ha.
+  - intros [|]; vm_compute; reflexivity.
+Qed.
+
+Example C09_example_run :
+  run_conn ex_cf [ex_p1; ex_p2; ex_p3] ex_c0 [SFirst ex_req true; SUpstream (bs "a"); SUpstream (bs "b")]
+  = [Call 1 BUC (ARequest ex_req);
+     Call 2 BUC (ARequest (set_headers ex_req (add_header (bs "X-1") (bs "1") (rq_headers ex_req))));
+     Call 3 BUC (ARequest (set_headers ex_req (add_header (bs "X-1") (bs "1") (rq_headers ex_req))));
+     Call 1 DNS (AHostPort (bs "h.example") 80); Call 2 DNS (AHostPort (bs "h.example") 80); Call 3 DNS (AHostPort (bs "h.example") 80);
+     Connect (bs "h.example") 80 None;
+     Call 1 HCR (ARequest (set_headers ex_req (add_header (bs "X-1") (bs "1") (rq_headers ex_req))));
+     Call 2 HCR (ARequest (set_headers ex_req (add_header (bs "X-1") (bs "1") (rq_headers ex_req))));
+     Call 3 HCR (ARequest (set_headers ex_req (add_header (bs "X-2") (bs "2") (add_header (bs "X-1") (bs "1") (rq_headers ex_req)))));
+     QueueUpstream QRequest (bs "GET / HTTP/1.1" ++ CRLF ++ bs "Host: h.example" ++ CRLF ++ bs "X-1: 1" ++ CRLF ++ bs "X-2: 2" ++ CRLF
+                             ++ bs "Via: 1.1 proxy.py v0" ++ CRLF ++ CRLF);
+     Call 1 HUC (ABytes (bs "a")); Call 2 HUC (ABytes (bs "a!")); Call 3 HUC (ABytes (bs "a!")); QueueClient (bs "a!");
+     Call 1 HUC (ABytes (bs "b")); Call 2 HUC (ABytes (bs "b!"));
+     Call 1 OAL (ACtx ex_c0); Call 2 OAL (ACtx ex_c0); Call 3 OAL (ACtx ex_c0);
+     Call 1 OUCC AUnit; Call 2 OUCC AUnit; Call 3 OUCC AUnit; UpstreamClose; ClientClose].
+Proof. vm_compute. reflexivity. Qed.
+
+(* the premise "lifecycle hooks do not raise" of C09_lifecycle_once is necessary: a plugin whose
+   on_access_log raises keeps every later callback from running, including every plugin's
+   on_upstream_connection_close and the close of the upstream socket *)
+Definition ex_bad : plugin :=
+  mkPlugin 1 (bs "Bad") (fun _ r => Pass r) (fun _ _ _ => Some (None, None)) (fun _ r => Pass r)
+           (fun _ b => Pass b) (fun _ b => Pass b) (fun _ c => Raise ValueError) (fun _ => None).
+Example C09_lifecycle_raise_skips :
+  let l := run_conn ex_cf [ex_bad; ex_p2] ex_c0 [SFirst ex_req true] in
+  filter (is_call_of OUCC) l = [] /\ filter (fun e => match e with UpstreamClose => true | _ => false end) l = []
+  /\ filter is_client_close l = [ClientClose] /\ In (Escaped 1) l.
+Proof. vm_compute. repeat split; try reflexivity. right. repeat (try (left; reflexivity); right). Qed.
+
+(* a rejection in handle_client_request of the first request happens after the connect *)
+Definition ex_rej : plugin :=
+  mkPlugin 1 (bs "Rej") (fun _ r => Pass r) (fun _ _ _ => Some (None, None))
+           (fun _ r => Reject (HttpRequestRejected_response (Some 403) (Some (bs "No")) [] None))
+           (fun _ b => Pass b) (fun _ b => Pass b) (fun _ c => Pass c) (fun _ => None).
+Example C09_reject_in_hcr_after_connect :
+  let l := run_conn ex_cf [ex_rej] ex_c0 [SFirst ex_req true] in
+  connect_log l = [Connect (bs "h.example") 80 None] /\ upstream_queue l = []
+  /\ client_queue l = [QueueClient (bs "HTTP/1.1 403 No" ++ CRLF ++ bs "Content-Length: 0" ++ CRLF ++ bs "Connection: close" ++ CRLF ++ CRLF)].
+Proof. vm_compute. repeat split; reflexivity. Qed.
